@@ -397,14 +397,15 @@ impl<T> AtomicBucket<T> {
         #[cfg(metrics_verif)]
         metrics::verif::point("bkt.clear.load_tail");
         let mut block_ptr = self.tail.load(Ordering::Acquire, guard);
-        #[cfg(metrics_verif)]
-        {
-            if !block_ptr.is_null() {
-                metrics::verif::point("bkt.clear.cas");
-            }
-        }
-        if !block_ptr.is_null()
-            && self
+
+        // Detach the whole chain.  If the tail moved between our load and the compare-exchange -- a
+        // writer installed a new block, or another clear detached the chain -- we try again with the
+        // new tail instead of returning without having cleared anything.  Every failed attempt means
+        // another thread made progress, so this stays lock-free.
+        while !block_ptr.is_null() {
+            #[cfg(metrics_verif)]
+            metrics::verif::point("bkt.clear.cas");
+            if self
                 .tail
                 .compare_exchange(
                     block_ptr,
@@ -414,7 +415,13 @@ impl<T> AtomicBucket<T> {
                     guard,
                 )
                 .is_ok()
-        {
+            {
+                break;
+            }
+            block_ptr = self.tail.load(Ordering::Acquire, guard);
+        }
+
+        if !block_ptr.is_null() {
             let backoff = Backoff::new();
             let mut freeable_blocks = Vec::new();
 
